@@ -16,8 +16,8 @@ using eng::Op; using eng::Case; using eng::Result; using eng::fail_now; using en
 #define KiB ((size_t)1024)
 #define MiB (KiB*KiB)
 enum { MI_VF_LOAD = 0, MI_VF_STORE, MI_VF_XCHG, MI_VF_RMW, MI_VF_CAS, MI_VF_LOCK, MI_VF_UNLOCK };
-enum { F_PREEMPT_IN_CALL = 0, F_CONFLICT, F_SPURIOUS_CAS, F_REMOTE_FREE, F_THREAD_DONE_LIVE, F_RECLAIM_SEEN, F_HEAP_DELETE_RACE, F_DELAYED_PATH, F_QUIESCENT_EMPTY, F_ARENA_ROLLBACK, F_BITMAP_CROSS, F_PC_RUN, F_REMOTE_FULL, F_REUSE_PROBE, F_NFLAGS };
-static const char* FLAG_NAMES[] = { "preempt_inside_call", "conflicting_rmw_while_preempted", "spurious_weak_cas_failure", "remote_free", "thread_done_with_live_blocks", "abandoned_segment_reclaimed_or_freed_remotely", "heap_delete_or_collect_raced", "first_remote_free_delayed_path", "quiescent_heap_empty", "arena_claim_rollback", "bitmap_claim_crossed_field", "producer_consumer_run", "remote_free_into_full_page", "reuse_probe_with_room" };
+enum { F_PREEMPT_IN_CALL = 0, F_CONFLICT, F_SPURIOUS_CAS, F_REMOTE_FREE, F_THREAD_DONE_LIVE, F_RECLAIM_SEEN, F_HEAP_DELETE_RACE, F_DELAYED_PATH, F_QUIESCENT_EMPTY, F_ARENA_ROLLBACK, F_BITMAP_CROSS, F_PC_RUN, F_REMOTE_FULL, F_REUSE_PROBE, F_YIELD_NOOP, F_ADDR_RULE, F_NFLAGS };
+static const char* FLAG_NAMES[] = { "preempt_inside_call", "conflicting_rmw_while_preempted", "spurious_weak_cas_failure", "remote_free", "thread_done_with_live_blocks", "abandoned_segment_reclaimed_or_freed_remotely", "heap_delete_or_collect_raced", "first_remote_free_delayed_path", "quiescent_heap_empty", "arena_claim_rollback", "bitmap_claim_crossed_field", "producer_consumer_run", "remote_free_into_full_page", "reuse_probe_with_room", "yield_without_progress_of_others", "address_directed_switch_fired" };
 enum { C_STEPS = 0, C_SWITCHES, C_ALLOCS, C_FREES, C_SPINS, C_WEAKCAS, C_WAITS, C_AREAS_MAX, C_NCOUNTERS };
 static const char* COUNTER_NAMES[] = { "atomic_steps", "context_switches", "allocs", "frees", "spins", "weak_cas_ops", "harness_waits", "areas_max" };
 
@@ -37,6 +37,8 @@ struct VT { bool waiting = false; std::function<bool()> can_go;   /* harness-lev
 struct Sched {
   int nthreads = 0; VT vt[MAXT]; int cur = -1; long step = 0; long weakcas = 0; bool active = false;
   std::vector<std::pair<long,int>> preempts; size_t next_pre = 0; std::vector<int> prio; std::vector<long> casfail; size_t next_cas = 0;
+  struct Rule { int thread; uint32_t addr; long k; int to; long seen = 0; bool fired = false; }; std::vector<Rule> rules;   /* directive G: when `thread` is about to make its k-th atomic access to `addr`, switch to `to` */
+  long yield_skip = 0, yield_noop = 0;   /* schedule directive Y: after `skip` allocator yields, the next `n` yields return at once (the OS did not run anyone else) */
   long step_limit = 4000000; sem_t done_sem; Result* r = nullptr; bool aborted = false;
 };
 static Sched S;
@@ -67,6 +69,8 @@ extern "C" void mi_verif_point(const volatile void* addr, int kind) {
   if (me.in_call && me.call_addrs.size() < 256) me.call_addrs.push_back(a);
   if (kind != MI_VF_LOAD) for (int t = 0; t < S.nthreads; t++) if (t != self && S.vt[t].preempted_in_call && S.vt[t].foreign_rmw.size() < 256) S.vt[t].foreign_rmw.push_back(a);
   if (S.step > S.step_limit) sched_skip("step-limit");
+  { int go = -1; for (auto& r : S.rules) if (!r.fired && r.thread == self && r.addr == a && ++r.seen == r.k) { r.fired = true; flag(F_ADDR_RULE); if (go < 0 && r.to != self && runnable(r.to)) go = r.to; }
+    if (go >= 0) switch_to(go); }
   if (S.next_pre < S.preempts.size() && S.preempts[S.next_pre].first <= S.step) {
     int t = S.preempts[S.next_pre].second; S.next_pre++;
     if (t != self && runnable(t)) switch_to(t);
@@ -81,6 +85,7 @@ extern "C" int mi_verif_cas_weak_fail(void) {
 extern "C" void mi_verif_spin(void) {
   int self = vt_self; if (self < 0 || !S.active) { sched_yield(); return; }
   S.r->counters[C_SPINS]++; VT& me = S.vt[self]; me.spins++;
+  if (S.yield_skip > 0) S.yield_skip--; else if (S.yield_noop > 0) { S.yield_noop--; flag(F_YIELD_NOOP); return; }
   int t = pick_other(self, true);
   if (t < 0) { if (me.spins > 10000) fail_now("livelock", "thread %d spins in the allocator (op #%d) while no other thread can run", self, me.cur_op); return; }
   if (me.spins > 200000) sched_skip("spin-limit");
@@ -208,6 +213,8 @@ static void run_program(const Case& c, Result& r, const std::string& mode) {
     if (op.name == "opt") { P.opts.push_back(op); continue; }
     if (op.name == "P") { S.preempts.push_back({ (long)op.num("step"), (int)op.num("to") }); continue; }
     if (op.name == "X") { S.casfail.push_back((long)op.num("idx")); continue; }
+    if (op.name == "G") { Sched::Rule r; r.thread = (int)op.num("t"); r.addr = (uint32_t)op.num("a"); r.k = (long)op.num("k", 1); r.to = (int)op.num("to"); if (S.rules.size() < 16) S.rules.push_back(r); continue; }
+    if (op.name == "Y") { S.yield_skip = (long)op.num("skip", 0); S.yield_noop = (long)op.num("n", 4); if (S.yield_noop > 64) S.yield_noop = 64; continue; }
     if (op.name == "R") { std::string o = op.str("order"); for (char ch : o) if (ch >= '0' && ch <= '9') S.prio.push_back(ch - '0'); continue; }
     int t = (int)op.num("t", 0); if (t < 0 || t >= MAXT) continue; if (t + 1 > T) T = t + 1;
     if ((int)P.ops.size() < T) P.ops.resize((size_t)T);
@@ -229,6 +236,7 @@ static void run_program(const Case& c, Result& r, const std::string& mode) {
   S.active = false;
   for (int t = 0; t < T; t++) pthread_join(S.vt[t].th, nullptr);
   if (g_trace) { g_trace->nsteps = (uint32_t)S.step; g_trace->nweakcas = (uint32_t)S.weakcas; }
+  if (g_trace && getenv("VF_TRACE_DUMP")) { static const char* KN[] = { "load", "store", "xchg", "rmw", "cas", "lock", "unlock" }; for (uint32_t i = 0; i < g_trace->nrec; i++) { TraceRec& tr = g_trace->rec[i]; fprintf(stderr, "step %u t%d op#%d %s a=%u\n", i + 1, tr.thread, (int)tr.op, KN[tr.kind % 7], tr.addr); } }
   // ---- final phase on the real main thread (unscheduled): everything still live is verified and freed, then nothing may remain anywhere
   for (int s = 0; s < NSLOT; s++) if (M.slots[s].live) { model_check(s, "final"); uint8_t* p = M.slots[s].p; if (S.vt[M.slots[s].by].state == 2) flag(F_RECLAIM_SEEN); model_remove(s); mi_free(p); }
   special_final();
